@@ -121,7 +121,7 @@ def gen_case(rng, tier, kind=None, N=None, nc=None):
                 "conv_thr": rng.choice([None, None, 1e-9, 1e-3, 0.5])},
         "np_seed": rng.randint(0, 2 ** 31 - 1),
         # a long-lived machine object: used (enrolment) or trained before this training
-        "pre": rng.choice([None, None, None, "enroll", "fit"]),
+        "pre": rng.choice([None, None, None, "enroll", "fit", "fit_then_update_ubm"]),
         "sched": gen_sched(rng),
         "xmodes": rng.random() < 0.5,
     }
@@ -248,11 +248,15 @@ def _mk_stats(case):
     return out
 
 
+_CTX = {}
+
+
 def _make(case):
     from bob.learn.em import ISVMachine, JFAMachine, IVectorMachine
 
     cfg = case["cfg"]
     ubm = _mk_ubm(case["ubm"])
+    _CTX["ubm"] = ubm  # the caller's own UBM object, for the "fit_then_update_ubm" pre-operation
     if case["kind"] == "isv":
         return ISVMachine(cfg["rU"], em_iterations=cfg["it"], relevance_factor=cfg["rf"],
                           random_state=cfg["rs"], ubm=ubm)
@@ -334,13 +338,19 @@ def _pre(case, m, stats, bag_mode):
     pre = case.get("pre")
     if pre == "enroll" and case["kind"] != "ivector":
         m.enroll(stats[:2])
-    elif pre == "fit":
+    elif pre in ("fit", "fit_then_update_ubm"):
         rev = stats[::-1]
         if case["kind"] == "ivector":
             m.fit(db.from_sequence(rev, npartitions=2) if bag_mode else rev)
         else:
             yr = np.array(case["y"][::-1])
             m.fit(db.from_sequence(rev, npartitions=2) if bag_mode else rev, yr)
+        if pre == "fit_then_update_ubm":
+            # the caller re-estimates its UBM in place (public setters on the object it handed
+            # to the machine) before training the machine again
+            ubm = _CTX["ubm"]
+            ubm.means = np.array(ubm.means) * 1.05 + 0.01
+            ubm.variances = np.array(ubm.variances) * 1.2
 
 
 def _fit_list(case):
